@@ -18,6 +18,8 @@ from .c02_sym import (
     Cat,
     ClassVal,
     Closure,
+    CtxGen,
+    DDict,
     Effect,
     EndRun,
     Explorer,
@@ -169,8 +171,15 @@ class Interp(InterpBase):
             return f  # G.nodes() / G.edges(): the view itself (data= options are not modelled)
         if isinstance(f, type):
             return self.call_pytype(f, args, kwargs, node, frame)
+        if isinstance(f, App) and f.fn.startswith("attr:") and len(f.args) == 1:
+            return self.call_method_builtin(f.args[0], f.fn[5:], args, kwargs, node, frame)  # m = obj.method; m(...) is obj.method(...)
         if isinstance(f, Term):
             return App("callval", (f, *[_h(a) for a in args], *[(k, _h(v)) for k, v in sorted(kwargs.items())]))
+        if isinstance(f, Inst):
+            m = self.repo.lookup_method(f.ci, "__call__")  # callable object
+            if m is not None:
+                return self.call_function(m, [f, *args], kwargs, None, node)
+            raise Raised(None, "TypeError")
         raise Unsupported(f"call of a {type(f).__name__} value", node, frame.fi if frame else None)
 
     def bind_params(self, fn: ast.AST, args: list, kwargs: dict, frame: Frame, fi: FuncInfo | None) -> None:
@@ -206,6 +215,11 @@ class Interp(InterpBase):
             raise Raised(None, "TypeError")
 
     def call_function(self, fi: FuncInfo, args: list, kwargs: dict, closure: Frame | None = None, node: ast.AST | None = None) -> Any:
+        if fi.decorators:
+            if ("contextmanager" in fi.decorators or "asynccontextmanager" in fi.decorators) and self.entering_ctx is not fi:
+                return CtxGen(fi, list(args), dict(kwargs), closure)
+            if "singledispatch" in fi.decorators or "singledispatchmethod" in fi.decorators:
+                fi = self.dispatch_target(fi, args, node)
         if fi.fq in self.ex.stop:
             self.effects.append(Effect("call", None, fi.fq, tuple(args), dict(kwargs), self.in_loop > 0, dict(self.path)))
             return self.new_sym(f"result of {fi.name}")
@@ -249,6 +263,34 @@ class Interp(InterpBase):
         finally:
             self.active.pop()
 
+    entering_ctx: FuncInfo | None = None
+
+    def dispatch_target(self, fi: FuncInfo, args: list, node: ast.AST | None) -> FuncInfo:
+        """functools.singledispatch[method]: the registered implementation whose type the dispatch argument is an instance of."""
+        method = fi.cls is not None and fi.outer is None
+        k = 1 if method and not fi.is_staticmethod else 0
+        if len(args) <= k:
+            return fi
+        regs = [g for g in [*fi.module.all_funcs, *(fi.cls.extra_methods if fi.cls is not None else [])] if f"{fi.name}.register" in g.decorators and g.cls is fi.cls]
+        best: FuncInfo | None = None
+        for g in regs:
+            types: list = []
+            for d in g.node.decorator_list:
+                if isinstance(d, ast.Call) and isinstance(d.func, ast.Attribute) and d.func.attr == "register" and d.args:
+                    types.append(d.args[0])
+            if not types:
+                params = [*g.node.args.posonlyargs, *g.node.args.args]
+                if len(params) > k and params[k].annotation is not None:
+                    ann = params[k].annotation
+                    if isinstance(ann, ast.Constant) and isinstance(ann.value, str):
+                        ann = ast.parse(ann.value, mode="eval").body
+                    types.append(ann)
+            for texpr in types:
+                tv = self.eval(texpr, Frame(None, g.module))
+                if self.isinstance_(args[k], tv, node, None):
+                    best = g
+        return best or fi
+
     def symbolic_args(self, args: list, kwargs: dict) -> bool:
         vals = [*args, *kwargs.values()]
         return all(is_immutable(a) or isinstance(a, Inst) for a in vals) and any(isinstance(a, Term) or (isinstance(a, tuple) and any(isinstance(x, Term) for x in a)) for a in vals)
@@ -274,6 +316,9 @@ class Interp(InterpBase):
         gen = _has_yield(fn)
         if gen:
             frame.vars["__yields__"] = []
+            if self.entering_ctx is fi and self.ctx_bodies:
+                frame.vars["__ctx_body__"] = self.ctx_bodies.pop()
+                self.entering_ctx = None
         try:
             self.exec_block(fn.body, frame)
         except _Return as r:
@@ -507,7 +552,11 @@ class Interp(InterpBase):
             if isinstance(s.value, ast.Constant):
                 return
             if isinstance(s.value, ast.Yield):
-                self.yields_of(frame, s).append(("item", self.eval(s.value.value, frame) if s.value.value is not None else None))
+                yv = self.eval(s.value.value, frame) if s.value.value is not None else None
+                if frame.lookup("__ctx_body__")[0]:
+                    frame.lookup("__ctx_body__")[1](yv)
+                    return
+                self.yields_of(frame, s).append(("item", yv))
                 return
             if isinstance(s.value, ast.YieldFrom):
                 self.yields_of(frame, s).extend(self.parts_of(self.eval(s.value.value, frame), s, frame))
@@ -602,12 +651,87 @@ class Interp(InterpBase):
                     self.exec_stmt(ast.copy_location(ast.Delete(targets=list(t.elts)), s), frame)
                 else:
                     raise Unsupported("del statement", s, fi)
-        elif isinstance(s, (ast.Global, ast.Nonlocal)):
-            raise Unsupported("global / nonlocal statement", s, fi)
+        elif isinstance(s, ast.Nonlocal):
+            frame.vars.setdefault("__nonlocal__", set()).update(s.names)
+        elif isinstance(s, ast.Global):
+            raise Unsupported("global statement", s, fi)
         elif isinstance(s, (ast.With, ast.AsyncWith)):
-            raise Unsupported("with statement", s, fi)
+            self.exec_with(s, frame, 0)
         else:
             raise Unsupported(f"statement {type(s).__name__}", s, fi)
+
+    def exec_with(self, s: ast.With, frame: Frame, i: int) -> None:
+        """Context managers: repo classes with __enter__ / __exit__, generator functions under contextlib.contextmanager (the body of the
+        `with` runs where the generator yields), contextlib.suppress / nullcontext, and opaque library objects."""
+        if i == len(s.items):
+            self.exec_block(s.body, frame)
+            return
+        item = s.items[i]
+        cm = self.eval(item.context_expr, frame)
+
+        def body(v: Any) -> None:
+            if item.optional_vars is not None:
+                self.assign(item.optional_vars, v, frame)
+            self.exec_with(s, frame, i + 1)
+
+        if isinstance(cm, CtxGen):
+            pending: list = []
+            entered = [False]
+
+            def at_yield(v: Any) -> None:
+                if entered[0]:
+                    raise Raised(None, "RuntimeError")  # generator didn't stop
+                entered[0] = True
+                try:
+                    body(v)
+                except (_Return, _Break, _Continue) as ctl:
+                    pending.append(ctl)  # leaving the with block this way resumes the generator normally (its clean-up runs)
+
+            prev, self.entering_ctx = self.entering_ctx, cm.fi
+            self.ctx_bodies.append(at_yield)
+            try:
+                self.call_function(cm.fi, cm.args, cm.kwargs, cm.closure, s)
+            finally:
+                self.entering_ctx = prev
+                if self.ctx_bodies and self.ctx_bodies[-1] is at_yield:
+                    self.ctx_bodies.pop()
+            if not entered[0]:
+                raise Raised(None, "RuntimeError")  # generator didn't yield
+            if pending:
+                raise pending[0]
+            return
+        if isinstance(cm, Inst):
+            enter, exit_ = self.repo.lookup_method(cm.ci, "__enter__"), self.repo.lookup_method(cm.ci, "__exit__")
+            if enter is None or exit_ is None:
+                enter, exit_ = self.repo.lookup_method(cm.ci, "__aenter__"), self.repo.lookup_method(cm.ci, "__aexit__")
+            if enter is None or exit_ is None:
+                raise Unsupported(f"with statement on a {cm.ci.name} object without __enter__ / __exit__ in the repository", s, frame.fi)
+            v = self.call_function(enter, [cm], {}, None, s)
+            try:
+                body(v)
+            except Raised as r:
+                if not self.truth(self.call_function(exit_, [cm, ExtRef(f"builtins.{r.name}"), r.exc, None], {}, None, s)):
+                    raise
+                return
+            except (_Return, _Break, _Continue, EndRun):
+                self.call_function(exit_, [cm, None, None, None], {}, None, s)
+                raise
+            self.call_function(exit_, [cm, None, None, None], {}, None, s)
+            return
+        if isinstance(cm, tuple) and len(cm) == 2 and cm[0] == "__suppress__":
+            try:
+                body(None)
+            except Raised as r:
+                if not self.handler_matches(cm[1], r):
+                    raise
+            return
+        if isinstance(cm, tuple) and len(cm) == 2 and cm[0] == "__nullcontext__":
+            body(cm[1])
+            return
+        if isinstance(cm, Term):
+            body(App("meth:__enter__", (cm,)))
+            return
+        raise Unsupported(f"with statement on a {type(cm).__name__} value", s, frame.fi)
 
     def yields_of(self, frame: Frame, node: ast.AST) -> list:
         f: Frame | None = frame
@@ -1115,7 +1239,7 @@ class Interp(InterpBase):
         out = []
         f: Frame | None = frame
         while f is not None:
-            out.extend(v for k, v in f.vars.items() if k != "__yields__")
+            out.extend(v for k, v in f.vars.items() if not k.startswith("__"))
             f = f.parent
         return out
 
@@ -1271,6 +1395,13 @@ class Interp(InterpBase):
     # ------------------------------------------------------------------ assignment
     def assign(self, t: ast.expr, v: Any, frame: Frame) -> None:
         if isinstance(t, ast.Name):
+            if t.id in frame.vars.get("__nonlocal__", ()):
+                f = frame.parent
+                while f is not None and t.id not in f.vars:
+                    f = f.parent
+                if f is not None:
+                    f.vars[t.id] = v
+                    return
             frame.vars[t.id] = v
         elif isinstance(t, (ast.Tuple, ast.List)):
             if any(isinstance(x, ast.Starred) for x in t.elts):
@@ -1512,8 +1643,8 @@ class Interp(InterpBase):
             return App(type(op).__name__.lower(), (_h(a), _h(b)))
         raise Unsupported(f"operator {type(op).__name__} on {type(a).__name__} and {type(b).__name__}", node, fi)
 
-    def subscript(self, c: Any, k: Any, node: ast.AST, frame: Frame) -> Any:
-        fi = frame.fi
+    def subscript(self, c: Any, k: Any, node: ast.AST, frame: Frame | None) -> Any:
+        fi = frame.fi if frame is not None else None
         if isinstance(c, (list, dict)) and self.opened(c) is not None:
             o = self.opened(c)
             if isinstance(c, dict):
@@ -1522,6 +1653,9 @@ class Interp(InterpBase):
                     return c[key]
                 if self.decide(self.member_atom(o, k)):
                     return App("value", (o.src, _h(k)))
+                if isinstance(c, DDict) and c.factory is not None:
+                    c[_hashable(k)] = self.call(c.factory, [], {}, node, frame)
+                    return c[_hashable(k)]
                 raise Raised(None, "KeyError")
             if isinstance(k, slice):
                 k = App("slice", (k.start, k.stop, k.step))
@@ -1540,6 +1674,9 @@ class Interp(InterpBase):
             key = self.dict_key(c, hk)
             if key is not _MISSING:
                 return c[key]
+            if isinstance(c, DDict) and c.factory is not None:
+                c[hk] = self.call(c.factory, [], {}, node, frame)
+                return c[hk]
             raise Raised(None, "KeyError")
         if isinstance(c, Seq):
             if c.concrete:
